@@ -597,3 +597,87 @@ def fix4(run):
         good = bool(evals) and all(edge_true_dominates(f, lambda dd: dd.split(" var:")[0].endswith(".is_last_iteration"), b) for b in evals)
         run.check(good, R, R + "|assert|last-only", f.loc(), "resolve_assert evaluates its condition only behind `is_last_iteration`",
                   "resolve_assert can evaluate (and fail) an assertion in a guessing pass: with a larger budget the same program could fail/succeed differently")
+
+
+def fix5(run):
+    """every candidate of an instruction is recomputed in every pass: the loop of resolve_instruction_matches runs
+    over 0..matches.len(), evaluates each index, and leaves early only by propagating an error"""
+    R = "FIX5"
+    f = run.anchor(R, "instruction::resolve_instruction_matches")
+    if f is None:
+        return
+    calls = [(bi, t) for bi, t in f.calls() if (t.get("resolved") or "").endswith("instruction::resolve_instruction_match")]
+    if len(calls) != 1:
+        run.violation(R, R + "|one-eval-site", f.loc(), "expected exactly one call to resolve_instruction_match in resolve_instruction_matches, found %d" % len(calls))
+        return
+    cb, ct = calls[0]
+    # the loop header: `next()` call whose natural loop contains cb
+    header = None
+    for bi, t in f.calls():
+        if (t.get("callee") or "") == "std::iter::Iterator::next":
+            lp = natural_loop(f, bi)
+            if lp and cb in lp:
+                if header is None or len(lp) < len(header[1]):
+                    header = (bi, lp, t)
+    if header is None:
+        run.violation(R, R + "|loop", f.loc(), "mechanism not found: loop around resolve_instruction_match")
+        return
+    hb, lp, ht = header
+    ity = (ht.get("arg_tys") or [""])[0]
+    run.check("std::ops::Range<usize>" in ity, R, R + "|range", f.loc(ht["span"]),
+              "candidates are visited by a plain index range", "candidates are visited through `%s`, not a plain 0..matches.len() range: some may be skipped or reordered" % ity)
+    # range bounds: 0 .. len(matches)
+    rng_ok = False
+    for bi, si, st in f.stmts():
+        if st["k"] == "assign" and st["rv"]["k"] == "agg" and st["rv"].get("agg") == "adt" and st["rv"]["adt"].endswith("ops::Range"):
+            a = const_int(st["rv"]["ops"][0])
+            o = peel(f.origin_op(st["rv"]["ops"][1]))
+            if a == 0 and o[0] == "call" and (o[1].get("callee") or "").endswith("::len"):
+                d = describe_origin(f, f.origin_op(o[1]["args"][0]))
+                if "matches" in d:
+                    rng_ok = True
+    run.check(rng_ok, R, R + "|range-bounds", f.loc(), "the range is 0..matches.len()", "the candidate range is not 0..matches.len()")
+    # exits: only the exhausted edge and error propagation
+    tb = ht["target"]
+    none_t = None
+    some_t = None
+    blk = f.blocks[tb]
+    if blk["term"]["k"] == "switch":
+        for v, tg in blk["term"]["targets"]:
+            if v == "0":
+                none_t = tg
+            else:
+                some_t = tg
+        if some_t is None:
+            some_t = blk["term"]["otherwise"]
+    bad = []
+    for b in lp:
+        for s in f.succs(b):
+            if s in lp or (b == tb and s == none_t):
+                continue
+            if f.blocks[s]["term"]["k"] == "unreachable":
+                continue
+            # error propagation: the exit leads to a return of Err (from_residual) without rejoining
+            reach = reach_from(f, s)
+            is_err = any((f.blocks[x]["term"]["k"] == "call" and (f.blocks[x]["term"].get("callee") or "").endswith("from_residual")) for x in reach if x not in lp) and \
+                not any(st["k"] == "assign" and st["place"]["l"] == 0 and st["rv"]["k"] == "agg" and st["rv"].get("variant") == "Ok" for x in reach for st in f.blocks[x]["stmts"])
+            if not is_err:
+                bad.append(f.blocks[b]["term"]["span"]["line"])
+    run.check(not bad, R, R + "|no-early-exit", f.loc(), "the candidate loop is left only when exhausted or by propagating an error",
+              "the candidate loop can be left early (line %s) without an error: candidates that were rejected on a guessed value would not be reconsidered with the final values" % sorted(set(bad)))
+    # the evaluation lies on every path through the body
+    if some_t is not None:
+        seen = set()
+        work = [some_t]
+        skipped = False
+        while work:
+            x = work.pop()
+            if x in seen or x == cb or x not in lp:
+                continue
+            seen.add(x)
+            if x == hb:
+                skipped = True
+                break
+            work.extend(f.succs(x))
+        run.check(not skipped, R, R + "|every-index-evaluated", f.loc(ct["span"]), "every visited candidate is evaluated (no path around resolve_instruction_match)",
+                  "an iteration of the candidate loop can skip resolve_instruction_match")
